@@ -72,7 +72,8 @@ func runC10(c *harness.Ctx) {
 	t := c.T
 	c.S.ArmSelect()
 	setBias(false)
-	kinds := []string{"garbage-handshake", "mutated-exchange", "link-fault", "idle-hour", "garbage-handshake", "mutated-exchange", "link-fault", "socks-garbage", "scramblesuit-chaos", "meek-chaos", "flood"}
+	steerPads(c, append([]int{obfsref.O2MaxPadding + 1, obfsref.O3HalfPadding + 1, obfsref.SSMaxPad + 1}, obfs4PadRanges...)...)
+	kinds := []string{"garbage-handshake", "mutated-exchange", "link-fault", "idle-hour", "garbage-handshake", "mutated-exchange", "link-fault", "socks-garbage", "scramblesuit-chaos", "meek-chaos", "flood", "authenticated-malformed"}
 	kind := kinds[t.Draw("kind", len(kinds))]
 	c.Info["kind"] = kind
 	c.Feature("kind-" + kind)
@@ -93,6 +94,8 @@ func runC10(c *harness.Ctx) {
 		c10Meek(c)
 	case "flood":
 		c10Flood(c)
+	case "authenticated-malformed":
+		c10AuthMalformed(c)
 	}
 }
 
@@ -482,8 +485,12 @@ func c10SS(c *harness.Ctx) {
 	if err != nil {
 		panic(err)
 	}
-	if t.Draw("ssticket", 3) == 2 {
+	switch t.Draw("ssticket", 4) {
+	case 2:
 		c10SSTicket(c, cf, server, secret)
+		return
+	case 3:
+		c10SSAuthMalformed(c, cf, server, secret)
 		return
 	}
 	link := c.Net.NewLink("c", "r")
